@@ -17,7 +17,7 @@ def run(tier, seed):
     quick = tier != 'thorough'
     c01.pinned_hooks(chk)
     items, asts = [], []
-    for i in range(300 if quick else 2500):
+    for i in range(220 if quick else 2500):
         s = rng.randrange(1 << 30)
         ym = i % 4 == 0
         ast, src = genprog.gen_case_program(s, ym)
@@ -27,7 +27,7 @@ def run(tier, seed):
     pairs = [(p, a) for p, a in zip(progs, asts) if p.ok]
     st, kinds, cases = c01.run_conform(chk, pairs, 8 if quick else 12, 400 if quick else 3000, 'case')
     from props import c06
-    cs = c06.c_stage(chk, [p for p, a in pairs][::3 if quick else 2], rng, 2, 'case program')
+    cs = c06.c_stage(chk, [p for p, a in pairs][::5 if quick else 2], rng, 2, "case program")
     chk.coverage = {
         'states': st['states'] + cs['states'], 'transitions': st['transitions'] + cs['transitions'], 'traces_validated_against_impl': len(pairs) + cs['accepted'],
         'c_stage': cs,
